@@ -17,3 +17,9 @@ VARIANTS = [
     M('C16', 'dates-get-a-dtype', E(PI, "        if f.name not in date_fields\n        and MTYPE_TO_PANDAS_DTYPE.get(f.mtype) is not None", "        if MTYPE_TO_PANDAS_DTYPE.get(f.mtype) is not None"), rule='C16-TYPES', key='nodate'),
     M('C16', 'refactor-chain-as-loop', E(CW, "    outfmt = (\n        fmt.replace('dd', 'd')\n           .replace('d', '%d')", "    outfmt = (\n        fmt.replace('dd', 'd').replace('d', '%d')"), kind='refactor'),
 ]
+
+RD = 'tdda/serial/reader.py'
+VARIANTS += [
+    M('C16', 'metadata-loader-memoised', [E(RD, "def load_metadata(", "@functools.lru_cache(maxsize=128)\ndef load_metadata("), E(RD, "import os\n", "import os\nimport functools\n")],
+      rule='C16-NOCACHE', key='reader'),
+]
